@@ -579,6 +579,8 @@ pub fn gen_op(r: &mut Rng, prof: Profile, kind: char, view: &GenView) -> Op {
             }
             "extend_from_slice" => Some((Pk::Clone, r.below(op.xs.len() as u64 + 1) as u32)),
             "clone" => Some((Pk::Clone, r.below(calls) as u32)),
+            // a destructor of a drained-but-not-yet-yielded element panics while the `Splice` is dropped
+            "splice" if r.chance(2, 5) => Some((Pk::Drop, r.below(calls) as u32)),
             "extend" | "splice" => Some((Pk::Iter, r.below(op.xs.len() as u64 + 2) as u32)),
             "truncate" | "clear" | "drop" | "into_iter" | "into_iter_nth" | "drain" | "into_boxed" => Some((Pk::Drop, r.below(calls) as u32)),
             _ => None,
